@@ -15,6 +15,36 @@ import (
 	"verif/reg"
 )
 
+// pkgPanicSite returns file:line of the frame that raised the panic when that frame belongs to
+// package sftp proper (not to an overlaid harness file), else "".
+func pkgPanicSite(stack string) string {
+	lines := strings.Split(stack, "\n")
+	for i := 0; i+1 < len(lines); i++ {
+		if !strings.HasPrefix(lines[i], "panic(") {
+			continue
+		}
+		// frames of the runtime (bounds-check helpers) may sit between panic() and the raising frame
+		for j := i + 2; j+1 < len(lines); j += 2 {
+			fn, loc := lines[j], strings.TrimSpace(lines[j+1])
+			if strings.HasPrefix(fn, "runtime.") || strings.HasPrefix(fn, "internal/") {
+				continue
+			}
+			if !strings.HasPrefix(fn, "github.com/pkg/sftp") {
+				return ""
+			}
+			if k := strings.Index(loc, " "); k > 0 {
+				loc = loc[:k]
+			}
+			base := loc[strings.LastIndex(loc, "/")+1:]
+			if strings.HasPrefix(base, "zz_verif_") {
+				return ""
+			}
+			return base
+		}
+	}
+	return ""
+}
+
 func main() {
 	if len(os.Args) < 2 {
 		fmt.Fprintln(os.Stderr, "usage: vworker list|run ...")
@@ -79,7 +109,16 @@ func run(args []string) {
 		defer func() {
 			if r := recover(); r != nil {
 				res = reg.NewResult(*part)
-				res.EngineError = fmt.Sprintf("worker panic: %v\n%s", r, debug.Stack())
+				st := string(debug.Stack())
+				if loc := pkgPanicSite(st); loc != "" {
+					// the panic was raised by the package's own code (first frame below the panic is a file of /repo,
+					// not of the harness): called with a value of its input domain it must not panic, whatever the property
+					res.Evaluations = 1
+					res.Exhaustive = false
+					res.Violate(*prop, "panic:"+loc, fmt.Sprintf("package code panics: %v\n%s", r, st), nil, nil)
+					return
+				}
+				res.EngineError = fmt.Sprintf("worker panic: %v\n%s", r, st)
 			}
 		}()
 		res = f(ctx)
